@@ -118,7 +118,8 @@ class EntryTask(CoreTask):
             base_call = ctx.config.get("call_hook")
             ctx.config["call_hook"] = lambda I_, st_, f, a, k, n, c=c, b=base_call: (c(I_, st_, f, a, k, n) or (b(I_, st_, f, a, k, n) if b else None))
             ctx.contracts[BestMatchC.key] = BestMatchC()
-            ctx.contracts[ValidatorForC.key] = ValidatorForC(d)
+            # with an explicit cls, whatever validator_for would select is a DIFFERENT class: it must not be used
+            ctx.contracts[ValidatorForC.key] = ValidatorForC(d if not explicit else (4 if d != 4 else 7))
             unit = repo.unit("validators:validate")
             res["function"] = "validators:validate"
             res["source_hash"] = unit.source_hash()
